@@ -9,7 +9,6 @@ import (
 	"os/exec"
 	"path"
 	"path/filepath"
-	"sort"
 	"strings"
 	"sync"
 	"syscall"
@@ -51,8 +50,13 @@ type copyCase struct {
 const secretA, secretB = "TOP-SECRET-OUTSIDE-A", "TOP-SECRET-OUTSIDE-B"
 
 func resetCopyJail(root string) error {
-	for _, d := range []string{"outside", "srcroot", "dstroot"} {
-		disk.RemoveAll(filepath.Join(root, d))
+	// everything a previous case may have left in the jail root goes too (an escape must not mask the next one)
+	names, _ := os.ReadDir(root)
+	for _, n := range names {
+		if n.Name() == "cases.json" || n.Name() == "events.ndjson" {
+			continue
+		}
+		disk.RemoveAll(filepath.Join(root, n.Name()))
 	}
 	t := model.Tree{
 		{Path: "dstroot", Type: "dir", Perm: 0755, Mtime: 1300000000000000009},
@@ -68,36 +72,46 @@ func resetCopyJail(root string) error {
 // jailOutside snapshots /outside plus the root directories' own entries (times of the
 // destination root excluded: entries are created inside it).
 func jailOutside(root string) ([]vt.Ev, error) {
+	// everything in the jail that is not strictly inside /dstroot: the sentinels, the source tree, the roots' own
+	// entries (times of the destination root excluded: entries are created inside it) and whatever else appears
 	var out []vt.Ev
-	t, err := disk.Snapshot(filepath.Join(root, "outside"), false)
-	if err != nil {
+	var rec func(rel string) error
+	rec = func(rel string) error {
+		dir := filepath.Join(root, rel)
+		names, err := os.ReadDir(dir)
+		if err != nil {
+			return err
+		}
+		for _, de := range names {
+			n := de.Name()
+			r := n
+			if rel != "" {
+				r = rel + "/" + n
+			}
+			if r == "events.ndjson" || r == "cases.json" {
+				continue
+			}
+			e, err := disk.StatEntry(filepath.Join(dir, n), r, false)
+			if err != nil {
+				return err
+			}
+			ev := e.Ev()
+			ev["ct"] = fmt.Sprint(e.Ctime)
+			if r == "dstroot" {
+				ev["mt"], ev["ct"] = "-", "-"
+			}
+			out = append(out, ev)
+			if e.Type == "dir" && r != "dstroot" {
+				if err := rec(r); err != nil {
+					return err
+				}
+			}
+		}
+		return nil
+	}
+	if err := rec(""); err != nil {
 		return nil, err
 	}
-	for _, e := range t {
-		ev := e.Ev()
-		ev["ct"] = fmt.Sprint(e.Ctime)
-		out = append(out, ev)
-	}
-	for _, d := range []string{"outside", "srcroot", "dstroot"} {
-		e, err := disk.StatEntry(filepath.Join(root, d), d, false)
-		if err != nil {
-			return nil, err
-		}
-		ev := e.Ev()
-		ev["ct"] = fmt.Sprint(e.Ctime)
-		if d == "dstroot" {
-			ev["mt"], ev["ct"] = "-", "-"
-		}
-		out = append(out, ev)
-	}
-	// the jail root itself must not gain entries
-	names, _ := os.ReadDir(root)
-	var ns []string
-	for _, n := range names {
-		ns = append(ns, n.Name())
-	}
-	sort.Strings(ns)
-	out = append(out, vt.Ev{"p": vt.P("JAILROOT"), "t": strings.Join(ns, ",")})
 	return out, nil
 }
 
@@ -387,7 +401,8 @@ func Copy(c *Ctx) error {
 			}
 			shapes := []shape{{"x", "x", false, false}, {"x", "x", true, false}, {"x", "/", false, false}, {"/", "/", true, false},
 				{"*", "/", false, true}, {"x", "new/", false, false}, {"x", "deep/er/x", false, false}, {"y", "x", false, false},
-				{"x", "y/", false, false}, {"x/y", "y", false, false}}
+				{"x", "y/", false, false}, {"x/y", "y", false, false},
+				{"..", "/", false, false}, {"x/..", "/", false, false}, {"x/..", "y", false, false}, {"x/../..", "/", true, false}, {"../x", "../x", false, false}}
 			n := 0
 			for si, s := range srcs {
 				for di, d := range dsts {
@@ -453,6 +468,20 @@ func Copy(c *Ctx) error {
 						add(model.Tree{mk("f")}, model.Tree{at(l, "data")}, "f", "data/", false, false, "dstArgIsLinkSlash")
 						add(model.Tree{mk("f")}, model.Tree{at(l, "data")}, "f", "data", false, false, "dstArgIsLink")
 						add(model.Tree{dirE("d"), mk("d/x")}, model.Tree{at(l, "data")}, "d", "data/sub", true, false, "dstArgDirThroughLink")
+					}
+				}
+			}
+			// '..'-laden path arguments (no symlink needed): each root is the '/' of its side, so '..' stops there
+			for _, sa := range []string{"..", "d/..", "../..", "d/../..", "../f", "d/../f", "/..", "../d", "d/../../d", "./.."} {
+				for _, da := range []string{"/", "..", "../..", "x/..", "../x", "x/../..", "new/../../y", ".", "e", "e/..", "../e/"} {
+					for _, contents := range []bool{false, true} {
+						for _, follow := range []bool{false, true} {
+							cc := def
+							cc.Kind, cc.Src, cc.SrcArg, cc.DstArg, cc.Contents, cc.Follow = "contain", model.Tree{dirE("d"), mk("d/x"), mk("f")}, sa, da, contents, follow
+							cc.Dst = model.Tree{dirE("e"), mk("e/keep")}
+							cc.Origin = "dotdotArgs"
+							cases = append(cases, cc)
+						}
 					}
 				}
 			}
